@@ -100,7 +100,7 @@ def run(ctx):
                 return op, {"c": r.choice(alpha)}
             if op == "concat":
                 other = ["".join(r.choice(alpha) for _ in range(r.randint(0, 4))) for _ in range(r.randint(0, 3))]
-                return op, {"other": other}
+                return op, {"other": other, "empty_list": r.random() < 0.5, "other_first": r.random() < 0.4}
             if op == "assign_row":
                 if not n:
                     raise Skip()
@@ -253,7 +253,7 @@ def run(ctx):
             if op == "ravel":
                 return "flat", "".join(model)
             if op == "concat":
-                return "ragged", model + [U(s) for s in p["other"]]
+                return "ragged", ([U(s) for s in p["other"]] + model) if p.get("other_first") else (model + [U(s) for s in p["other"]])
             if op == "tolist":
                 return "pylist", list(model)
             if op == "assign_row":
@@ -386,7 +386,8 @@ def run(ctx):
             if op == "ravel":
                 return obj.ravel()
             if op == "concat":
-                return np.concatenate([obj, mk(p["other"]) if p["other"] else obj[:0]])
+                other = mk(p["other"]) if (p["other"] or p.get("empty_list")) else obj[:0]      # mk([]) : an array built from a list without rows
+                return np.concatenate([other, obj] if p.get("other_first") else [obj, other])
             if op == "tolist":
                 return obj.tolist()
             if op == "assign_row":
@@ -553,6 +554,14 @@ def run(ctx):
             rows = ["".join(r.choice(alpha) for _ in range(0 if mode < 0.1 else r.randint(0, 6))) for _ in range(n)]
             obj = bnp.as_encoded_array(rows, ENC[ename]) if ename != "ascii" else bnp.as_encoded_array(rows)
             model = [up(ename, s) for s in rows]
+        if r.random() < 0.3:
+            for ch in r.sample(list(alpha), min(3, len(alpha))):
+                one = bnp.as_encoded_array(ch, ENC[ename]) if ename != "ascii" else bnp.as_encoded_array(ch).copy()
+                try:
+                    one[0] = r.choice(alpha)
+                except Exception:
+                    pass
+            ctx.count("one_character_arrays_edited_before_the_program")
         kind = shape
         history = []
         # blind chains: intermediate results are handed to the next operation without the harness decoding them (decoding flattens a lazy
